@@ -22,7 +22,7 @@ TIKZ_KIND = {"R": "R", "C": "capacitor", "L": "L", "La": "L", "Q": "cpe"}
 
 
 def _mix(i, p, k):
-    return ((i * 2654435761 + p * 40503 + 977) >> 9) % k
+    return ce.mix(i, p, k, 16)
 
 
 # ------------------------------------------------------------------------------------------------- alphabet
@@ -103,6 +103,12 @@ REPRO = {
                   "        assert set(map(id, ids)) == set(map(id, inside)) | {id(t)}, (running, len(ids), len(inside) + 1)\n"
                   "        vals = sorted(ids[e] for e in inside)\n        if running: assert len(set(vals)) == len(vals) and all(v >= 0 for v in vals), vals\n"
                   "        else:\n            for s in {e.get_symbol() for e in inside}:\n                seq = sorted(ids[e] for e in inside if e.get_symbol() == s)\n                assert seq == list(range(1, len(seq) + 1)), (s, seq)\n"),
+    "fittable": ("from pyimpspec import simulate_spectrum, fit_circuit\nr = fit_circuit(c, simulate_spectrum(c, np.logspace(4, -1, 24)), method='least_squares', weight='boukamp', max_nfev=30, num_procs=1)\n"
+                 "fc = r.circuit; fels = walk(fc._elements)\nwant = {fc.get_element_name(e): e.get_values() for e in fels}\n"
+                 "assert [fc.get_element_name(e) for e in fels] == [c.get_element_name(e) for e in els]\n"
+                 "got = {n: {k: p.value for k, p in d.items()} for n, d in r.parameters.items()}\nassert got == want, (got, want)\n"
+                 "df = r.to_parameters_dataframe()\nrows = {(a, b): v for a, b, v in zip(df['Element'], df['Parameter'], df['Value'])}\n"
+                 "assert rows == {(n, k): v for n, d in want.items() for k, v in d.items()}, rows\n"),
     "drawing": ("cnt = c.generate_element_identifiers(running=False); top = walk(c._elements, deep=False)\nd = c.to_drawing()\n"
                 "got = sorted(l.label for x in d.elements for l in getattr(x, '_userlabels', []) if l.label)\n"
                 "want = sorted('$' + e.get_symbol() + '_{\\\\rm ' + (e.get_label() or str(cnt[e])) + '}$' for e in top)\nassert got == want, (got, want)\n"),
@@ -273,6 +279,35 @@ def eval_spec(spec, part, out):
                 if not abs(z - r) <= 1e-8 * abs(r):
                     fail("sympy:variable carries another element's value", "Connection.to_sympy", f"expression with each variable set to the value of the element with that identifier gives {z}, circuit gives {r}", "sympy")
             bump("sympy-semantic")
+    # 8b. table of fitted parameters: a value reported under a name is the value of that element's parameter
+    if part == "fit-table" and not collide:
+        import pyimpspec
+        try:
+            r = pyimpspec.fit_circuit(c, pyimpspec.simulate_spectrum(c, np.logspace(4, -1, 24)), method="least_squares", weight="boukamp", max_nfev=30, num_procs=1)
+        except Exception:  # noqa   (whether a fit completes is C12/C18's business)
+            r = None
+            bump("fit-unavailable")
+        if r is not None:
+            fc = r.circuit
+            fels = ce.walk(fc)
+            if [(e.get_symbol(), e.get_label()) for e in fels] != [(e.get_symbol(), e.get_label()) for e in els]:
+                bump("fit-circuit-not-matched")
+            else:
+                fnames = [fc.get_element_name(e) for e in fels]
+                wantt = {nm: e.get_values() for nm, e in zip(fnames, fels)}
+                got = {nm: {k: p.value for k, p in dd.items()} for nm, dd in r.parameters.items()}
+                df = r.to_parameters_dataframe()
+                rows = {(x, y): v for x, y, v in zip(df["Element"], df["Parameter"], df["Value"])}
+                if fnames != names:
+                    fail("fit-table:fitted circuit names its elements differently", "fit_circuit", f"{fnames} vs {names}", "fittable")
+                elif set(got) != set(wantt) or any(set(got[nm]) != set(wantt[nm]) for nm in got):
+                    fail("fit-table:names differ from element names", "_extract_parameters", f"{sorted(got)} vs {sorted(wantt)}", "fittable")
+                elif got != wantt:
+                    bad = [(nm, k, got[nm][k], wantt[nm][k]) for nm in got for k in got[nm] if got[nm][k] != wantt[nm][k]]
+                    fail("fit-table:value reported under a name is not that element's value", "_extract_parameters", f"{bad[:3]}", "fittable")
+                elif rows != {(nm, k): v for nm, dd in wantt.items() for k, v in dd.items()}:
+                    fail("fit-table:dataframe differs from element values", "FitResult.to_parameters_dataframe", f"{rows}", "fittable")
+                bump("fit-table")
     # 9. schemdraw labels (slow: sparse sample)
     if d % CTX["DRAW_MOD"] == 0:
         try:
@@ -350,6 +385,19 @@ def make_jobs(a):
             t = tlm_nested(p, labels)
             nested += [t, S(r0, t), P(t, c0), S(t, P(r0, tlm_nested(p + 2, labels))), P(S(r0, t), c0)]
     jobs.append(("nested-containers", "list", tuple(nested)))
+    # table of fitted parameters (one fit per circuit, num_procs=1): nested containers, small circuits, circuits with > 10 elements
+    rngf = np.random.default_rng(a.seed + 6)
+    fits = nested[:5] + nested[10:13]
+    mkf = ce.ALPHABETS["c16"]
+    s3 = ce.shapes(3, 0) + ce.shapes(2, 1)
+    for i in range(10 if quick else 110):
+        shape = s3[int(rngf.integers(0, len(s3)))]
+        fits.append(ce.fill(shape, [mkf[int(rngf.integers(0, len(mkf)))](1000 + i, p) for p in range(ce.n_leaves(shape))]))
+    for i in range(6 if quick else 40):
+        n = int(rngf.integers(7, 11))
+        fits.append(ce.fill(ce.random_shape(rngf, n, 0.0), [mkf[int(rngf.integers(0, len(mkf)))](2000 + i, p) for p in range(n)]))
+    for i in range(0, len(fits), 2):
+        jobs.append(("fit-table", "list", tuple(fits[i:i + 2])))
     # larger random circuits
     rng = np.random.default_rng(a.seed + 5)
     n_rand = 300 if quick else 6000
@@ -368,20 +416,22 @@ def main(a):
     ce.check_tlm_defaults()
     register_alphabets()
     CTX["F0"] = 3.7
-    CTX["SYMPY_ALL"], CTX["SYMPY_MOD"], CTX["DRAW_MOD"] = (2, 6, 150) if a.tier == "quick" else (2, 12, 400)
+    CTX["SYMPY_ALL"], CTX["SYMPY_MOD"], CTX["DRAW_MOD"] = (2, 6, 150) if a.tier == "quick" else (2, 20, 400)
     jobs, bound, n_rand = make_jobs(a)
     res = Result("C16", f"{bound}; alphabet = R, labelled R, C, Q/W (same parameter keys), two Tlm containers with labelled/unlabelled elements inside; every {{none, unique, shared}} label pattern on "
-                 f"3 repeated elements over the 3-leaf topologies; containers nested in containers; {n_rand} random circuits with 6..{12 if a.tier == 'quick' else 16} leaves; "
+                 f"3 repeated elements over the 3-leaf topologies; containers nested in containers; fit_circuit parameter tables for {24 if a.tier == 'quick' else 158} circuits (up to ~25 elements); {n_rand} random circuits with 6..{12 if a.tier == 'quick' else 16} leaves; "
                  f"numerical sympy check on all circuits with <= {CTX['SYMPY_ALL']} leaves and 1/{CTX['SYMPY_MOD']} of the others, schemdraw labels on 1/{CTX['DRAW_MOD']}",
                  "shapes = ordered S/P trees incl. same-kind nesting and one-child connections; leaves = cartesian power of the alphabet (labels vary with the case index); a case = one circuit "
-                 "object; checked: identifier maps against an own traversal, names, validate_circuit, generate_fit_identifiers, Container-level maps, CircuiTikZ/schemdraw labels, and that the "
+                 "object; checked: identifier maps against an own traversal, names, validate_circuit, generate_fit_identifiers, FitResult.parameters / to_parameters_dataframe (sampled), Container-level maps, CircuiTikZ/schemdraw labels, and that the "
                  "sympy expression evaluated with each variable set to the value of the element carrying that identifier reproduces get_impedances (distinct values per element)")
     order = np.random.default_rng(a.seed).permutation(len(jobs))
     allf = []
     with mp.get_context("fork").Pool(16) as pool:
         for part, out in pool.imap_unordered(run_job, [jobs[i] for i in order]):
-            res.evaluations += out["n"]
-            res.distinct.update(out["digests"])
+            for dg in out["digests"]:
+                res.case(dg, True)
+            for _ in range(out["n"] - len(out["digests"])):
+                res.case(None, False)          # outside the property's quantifier (reference undefined / cannot be simulated)
             p = res.parts.setdefault(part, {"cases": 0})
             p["cases"] += out["n"]
             for k, v in out["counters"].items():
